@@ -947,10 +947,12 @@ def s_ins(ctx, b, t):
                 E.notes['typed allocation %s' % E.cty(ety)] += 1
                 assign(rty, '(u8*)vf_ledger_add(%s, %s, %s(%s))' % (args[0], args[1], E.copy_helper('talloc', ety), args[1])); return
         elif base == 'vf_assert':
-            msg = cstring_of(E, args[1]) or 'vf_assert'
+            msg = cstring_of(E, args[1])
+            if msg is None: raise RuntimeError('vf_assert with a non-literal message (merged call sites?): cannot attribute the assertion')
             stmt = 'VF_ASSERT(%s, "%s");' % (args[0], msg); throws = False
         elif base == 'vf_witness':
-            msg = cstring_of(E, args[0]) or 'witness'
+            msg = cstring_of(E, args[0])
+            if msg is None: raise RuntimeError('vf_witness with a non-literal message (merged call sites?)')
             stmt = 'VF_WITNESS("witness: %s");' % msg; throws = False
         elif base in ('_Znwm', '_Znam'):
             assign(rty, 'vf_new(%s)' % args[0]);
